@@ -653,7 +653,7 @@ func c29Tags(q c29Request, presigned bool) []string {
 		tags = append(tags, "kf:C29-query-order-sdk-vs-encoded-sort")
 	}
 	if c29HasRunOfSpaces(q.Headers) {
-		tags = append(tags, "kf:C29-header-inner-spaces")
+		tags = append(tags, "header-space-runs") // former finding C29-header-inner-spaces (fixed by /repo bc241f9): must be accepted now
 	}
 	for _, h := range q.Headers {
 		if len(h) > 2 {
